@@ -237,6 +237,24 @@ Unk(ob, j, payload) ==
             UNION { { [j EXCEPT !.f[key] = c] : c \in Unk(ob.f[key], j.f[key], payload) } : key \in DOMAIN ob.f }
       [] OTHER -> {}
 
+\* "near-miss" keys: undeclared keys that are a spelling variant of a declared property of the very
+\* node they are added to (snake_case, lower case, keyword-escaped).  The variants are a string table
+\* computed by the harness from the property names (TLC cannot take strings apart).
+Alias == IF "ALIAS_TABLE" \in DOMAIN IOEnv THEN JsonDeserialize(IOEnv.ALIAS_TABLE) ELSE [n \in {} |-> <<>>]
+AliasKeys(cls) == LET ps == PropsOf(cls)
+                      declared == {ps[i].name : i \in DOMAIN ps}
+                  IN (UNION {SeqSet(Alias[ps[i].name]) : i \in {i \in DOMAIN ps : ps[i].name \in DOMAIN Alias}}) \ declared
+RECURSIVE NearMiss(_, _, _)
+NearMiss(ob, j, payload) ==
+    CASE ob.k = "inst" ->
+            {WithKey(j, key, payload) : key \in AliasKeys(ob.cls)}
+            \cup UNION { { [j EXCEPT !.f[n] = c] : c \in NearMiss(ob.p[n], j.f[n], payload) } : n \in DOMAIN ob.p }
+      [] ob.k \in {"arr", "tup"} ->
+            UNION { { [j EXCEPT !.a[i] = c] : c \in NearMiss(ob.a[i], j.a[i], payload) } : i \in DOMAIN ob.a }
+      [] ob.k = "map" ->
+            UNION { { [j EXCEPT !.f[key] = c] : c \in NearMiss(ob.f[key], j.f[key], payload) } : key \in DOMAIN ob.f }
+      [] OTHER -> {}
+
 \* the same, but only at nodes at or below a property whose type contains a real union (where
 \* hand-written hooks look at keys); used for deeper states
 UnkPayloads == <<JObj("a" :> JObj("b" :> JNull))>>
@@ -345,7 +363,15 @@ AddUnknownBelowUnion ==
     /\ UNCHANGED svObj
     /\ Same
 
-Vary == AddUnknownBelowUnion \/ DropRequired \/ IntValue \/ BadEnumValue \/ OtherLiteral \/ DropSpecial \/ AddUnknown
+AddNearMissKey ==
+    /\ CanVary
+    /\ \E j2 \in NearMiss(svObj, svW, JInt(1)) :
+          /\ svW' = j2
+          /\ svVar' = [vk |-> "unk", name |-> "near-miss"]
+    /\ UNCHANGED svObj
+    /\ Same
+
+Vary == AddNearMissKey \/ AddUnknownBelowUnion \/ DropRequired \/ IntValue \/ BadEnumValue \/ OtherLiteral \/ DropSpecial \/ AddUnknown
 Next == Refine \/ Vary
 Spec == Init /\ [][Next]_vars
 
